@@ -11,7 +11,7 @@ TB_COMMON = [
     "modelled, not verified: the Rust semantics of the source (hand transcription into Gallina), std HashMap, dashmap, crossbeam-channel, std sync primitives under sequential consistency, Rc/Arc/triomphe::Arc/Box/tagptr, std::time::Instant",
 ]
 
-HOOK_COMMITS = ["3635e1b", "c1db4d1", "9939cb6"]
+HOOK_COMMITS = ["3635e1b", "c1db4d1", "9939cb6", "a3bd6f1"]
 
 # properties deliberately not claimed (none so far: everything else is "not yet built")
 NOT_APPLICABLE = {}
